@@ -50,6 +50,7 @@ type memCommenter struct {
 	nextID int
 	budget int
 	skip   map[string]bool
+	skipErr error // what the real platform code returns from Create for a comment it cannot place
 	shift  bool
 	// per round
 	listed  []memComment
@@ -75,7 +76,7 @@ func (m *memCommenter) Create(_ context.Context, _ any, p reporter.PendingCommen
 	path, text, line, before := p.VerifFields()
 	m.created = append(m.created, memPending{Path: path, Text: text, Line: line, Before: before})
 	if m.skip[path] {
-		return nil
+		return m.skipErr
 	}
 	if m.shift && before {
 		line++
@@ -404,9 +405,15 @@ func c17Oracle(sc c17Scenario) (int, string) {
 				return k, fmt.Sprintf("the pending comment for report %d is on line %d outside %d-%d", c.ID, p.Line, c.First, c.Last)
 			}
 		}
-		// budget
-		if len(rd.Created) > sc.Budget {
-			return k, fmt.Sprintf("%d comments created with maxComments=%d", len(rd.Created), sc.Budget)
+		// budget: comments actually placed (a Create the platform answers with its "cannot be placed" signal is free)
+		placed := 0
+		for _, p := range rd.Created {
+			if !skip[p.Path] {
+				placed++
+			}
+		}
+		if placed > sc.Budget {
+			return k, fmt.Sprintf("%d comments created with maxComments=%d", placed, sc.Budget)
 		}
 		for _, p := range rd.Created {
 			if coveredBy(rd.Store, p) {
@@ -424,8 +431,8 @@ func c17Oracle(sc c17Scenario) (int, string) {
 			}
 			if !coveredBy(rd.Store, p) && !wasCreated {
 				deferred++
-				if len(rd.Created) < sc.Budget {
-					return k, "a pending comment was neither recognised, created nor refused by the budget"
+				if placed < sc.Budget {
+					return k, fmt.Sprintf("a pending comment (%s:%d) was neither recognised, created nor refused by the budget (%d placed, maxComments=%d)", p.Path, p.Line, placed, sc.Budget)
 				}
 			}
 			if !coveredBy(rd.After, p) && !sc.Shift && !skip[p.Path] {
@@ -455,21 +462,20 @@ func c17Oracle(sc c17Scenario) (int, string) {
 				return k, "a comment that still corresponds to a problem (or is not pint's to delete) was removed"
 			}
 		}
-		// idempotence
+		// idempotence: once no comment that can be placed was deferred, a run with unchanged results places and deletes nothing
 		if k > 0 && rd.Change == "unchanged" && !sc.Shift {
 			prev := sc.Rounds[k-1]
-			prevDeferred, prevSkipped := false, false
+			prevDeferred := false
 			for _, p := range prev.Pending {
-				if !coveredBy(prev.After, p) {
-					if skip[p.Path] {
-						prevSkipped = true
-					} else {
-						prevDeferred = true
-					}
+				if !coveredBy(prev.After, p) && !skip[p.Path] {
+					prevDeferred = true
 				}
 			}
-			if !prevDeferred && !prevSkipped && prev.ShowDups == rd.ShowDups && (len(rd.Created) > 0 || len(rd.Deleted) > 0) {
-				return k, "nothing was deferred in the previous run, results are unchanged, yet this run created or deleted comments"
+			if !prevDeferred && prev.ShowDups == rd.ShowDups && (placed > 0 || len(rd.Deleted) > 0) {
+				return k, fmt.Sprintf("nothing that can be placed was deferred in the previous run, results are unchanged, yet this run created %d and deleted %d comment(s)", placed, len(rd.Deleted))
+			}
+			if !prevDeferred && prev.ShowDups == rd.ShowDups && fmt.Sprint(rd.After) != fmt.Sprint(prev.After) {
+				return k, "nothing that can be placed was deferred in the previous run, results are unchanged, yet the comment store changed"
 			}
 		}
 		_ = deferred
@@ -530,9 +536,13 @@ func runC17(args []string) int {
 		if r.Intn(3) == 0 {
 			m.budget = 1 + r.Intn(2)
 		}
-		if r.Intn(6) == 0 {
-			m.skip["c.yml"] = true
-			sc.Skip = []string{"c.yml"}
+		if r.Intn(4) == 0 {
+			// a platform that cannot place comments on one of the paths (not part of the pull request); the path is any of
+			// the reported ones, so the unplaceable comments come first, in the middle or last in the pending list
+			sp := pick(r, []string{"a.yml", "b.yml", "c.yml"})
+			m.skip[sp] = true
+			m.skipErr = reporter.VerifSkipSignal(r.Intn(2) == 0)
+			sc.Skip = []string{sp}
 		}
 		if r.Intn(10) == 0 {
 			m.shift = true
@@ -556,21 +566,38 @@ func runC17(args []string) int {
 				reps, change = c17Evolve(r, reps)
 			}
 		}
-		// convergence on the streak
-		if nrounds == npend+2 && !sc.Shift && len(sc.Skip) == 0 && sc.Budget >= 1 {
+		// convergence on the streak: n = pending comments that are uncovered at the start and CAN be placed; run ceil(n/m)
+		// defers none of them, so every later run places and deletes nothing and all of them are covered - also when
+		// other pending comments cannot be placed at all (they must not cost budget)
+		if nrounds == npend+2 && !sc.Shift && sc.Budget >= 1 {
 			rep.hist("convergence-streak")
+			if len(sc.Skip) > 0 {
+				rep.hist("convergence-streak:with-unplaceable")
+			}
 			unc := 0
 			for _, p := range sc.Rounds[0].Pending {
-				if !coveredBy(sc.Rounds[0].Store, p) {
+				if !coveredBy(sc.Rounds[0].Store, p) && !m.skip[p.Path] {
 					unc++
 				}
 			}
 			need := (unc + sc.Budget - 1) / sc.Budget
-			// run number `need` defers nothing, so every later run creates nothing; stale comments go in run 1
 			for q := need; q < len(sc.Rounds); q++ {
 				rd := sc.Rounds[q]
-				if len(rd.Created) > 0 || (q >= 1 && len(rd.Deleted) > 0) {
-					rep.fail(fmt.Sprint(caseID), fmt.Sprintf("%d uncovered comments, maxComments=%d: run %d still creates or deletes comments", unc, sc.Budget, q+1), sc)
+				placed := 0
+				for _, p := range rd.Created {
+					if !m.skip[p.Path] {
+						placed++
+					}
+				}
+				if placed > 0 || (q >= 1 && len(rd.Deleted) > 0) {
+					rep.fail(fmt.Sprint(caseID), fmt.Sprintf("%d uncovered placeable comments, maxComments=%d: run %d still creates or deletes comments", unc, sc.Budget, q+1), sc)
+					break
+				}
+			}
+			last := sc.Rounds[len(sc.Rounds)-1]
+			for _, p := range last.Pending {
+				if !m.skip[p.Path] && !coveredBy(last.After, p) {
+					rep.fail(fmt.Sprint(caseID), fmt.Sprintf("%d uncovered placeable comments, maxComments=%d: after %d runs with unchanged results the problem on %s:%d still has no comment", unc, sc.Budget, len(sc.Rounds), p.Path, p.Line), sc)
 					break
 				}
 			}
